@@ -11,6 +11,22 @@
 
 void trap(Trap t) { printf("TRAP %d\n", (int)t); fflush(stdout); _exit(69); }
 
+#ifdef VF_IMPORTED_MEMORY
+/* the module imports its shared memory: the embedder owns it */
+static wasmMemory* vf_shared;
+static void* vf_resolve(const char* module, const char* name) {
+    (void)module;
+    if (strcmp(name, "memory") == 0) {
+        if (!vf_shared) vf_shared = wasmMemoryAllocate(1, VF_IMPORTED_MEMORY, true);
+        return vf_shared;
+    }
+    return NULL;
+}
+#define VF_RESOLVER vf_resolve
+#else
+#define VF_RESOLVER NULL
+#endif
+
 #define MAXOPS 256
 typedef struct { int op; unsigned long long a, b; long long c; } Op;
 typedef struct { int tid; int n; Op ops[MAXOPS]; mInstance* inst; } Prog;
@@ -70,7 +86,7 @@ int main(void) {
         else if (line[0] == 'X') break;
     }
     setvbuf(stdout, NULL, _IOFBF, 1 << 20);
-    mInstantiate(&root, NULL);
+    mInstantiate(&root, VF_RESOLVER);
     for (i = 1; i <= nthreads; i++) {
         progs[i].inst = (mInstance*)root.common.newChild((wasmModuleInstance*)&root);
         vs_spawn(worker, &progs[i]);
